@@ -1795,6 +1795,19 @@ class Engine:
                 if kind != "gen":
                     raise Unsupported("a view of a stateful iterator is consumed eagerly by a comprehension")
                 meta["lazy_tag"] = seq.meta["lazy_tag"]
+            flt0 = (seq.meta.get("filter") or seq.meta.get("eq_filter")) if isinstance(seq, SeqV) else None
+            if flt0 is not None and not self.concrete:
+                # a map over (a sequence equal to) a filter: remembered for the FILTER-SUM rule of sum()
+                def at_base(k, flt0=flt0):
+                    s2 = State(dict(env0), list(pc0))
+                    s2.pc.append(z3.And(k >= 0, k < flt0["n"], flt0["pred"](k)))
+                    eng.assign(g.target, flt0["val"](k), s2)
+                    mark = len(eng.obls)
+                    v = eng.ev(elt, s2)
+                    del eng.obls[mark:]
+                    return v
+
+                meta["map_filter"] = {"n": flt0["n"], "pred": flt0["pred"], "val": at_base}
             arg = getattr(src, "argsort", None)
             if arg is not None and isinstance(elt, ast.Name) and isinstance(g.target, ast.Tuple) and isinstance(g.target.elts[0], ast.Name) \
                     and g.target.elts[0].id == elt.id and arg[2].meta.get("enumerate_start") == 0:
@@ -2418,9 +2431,17 @@ class Engine:
                 facts = tmp.pc + [B(post)] + c.side
                 c.side = []
             elif K.ensures:
+                if isinstance(res, SeqV):
+                    res.meta["fresh_result"] = True
                 post = K.ensures(c, *vals, res)
                 facts = tmp.pc + [B(post)] + c.side
                 c.side = []
+                if isinstance(res, SeqV):
+                    res.meta.pop("fresh_result", None)
+                    cand = res.meta.pop("eq_filter_candidate", None)
+                    if cand is not None and all(any(cj.eq(want) for cj in _conjuncts(B(post))) for want in _conjuncts(cand[1])):
+                        # the postcondition ASSUMED for this result says: it is (element-wise) this filter
+                        res.meta["eq_filter"] = cand[0]
             else:
                 facts = tmp.pc
             if K.derived is not None:
